@@ -17,7 +17,7 @@ def subsets():
 def run(tier):
     ck = C.Check("C12", tier)
     failed = ck.proofs()
-    ng = 3 if tier == "quick" else 18
+    ng = 3 if tier == "quick" else 8
     b = batch.Batch("c12")
     variants = 0
     nontrivial = set()
